@@ -150,16 +150,15 @@ where
     let f = F::any_bits();
     let (nan, inf, neg, _m, _e) = f.decode();
     kani::assume(nan || inf);
+    kani::cover!(nan || FORM == 3, "W:nan (inf for the saturating-inf harness)");
+    kani::cover!((inf && neg) || FORM == 5, "W:-inf (nan for the saturating-nan harness)");
     if FORM == 2 {
         assert!(L::checked_from_num(f).is_none(), "checked_from_num(non-finite) is None");
-        kani::cover!(nan, "W:nan");
-        kani::cover!(inf, "W:inf");
     } else if FORM == 3 {
         kani::assume(inf);
         let s = L::saturating_from_num(f);
         let b = if neg { L::min_value() } else { L::max_value() };
         assert!(s.to_bits() == b.to_bits(), "saturating_from_num(+-inf) is the bound");
-        kani::cover!(neg, "W:-inf");
     } else {
         // must not return
         if FORM == 0 {
